@@ -313,3 +313,92 @@ def _mk_args_stream(shape):
 from contracts import thorough as _thorough      # noqa: E402
 for _shape in ("xS", "Sx", "xSx", "SxS", "xSS") + (("xxS", "SSS", "SxxS", "xSxSx") if _thorough() else ()):
     CONTRACTS.append(_mk_args_stream(_shape))
+
+
+# --- GenomicLocationStreamed.get_windows: the streamed windows are built with the same flanks as the in-memory ones (C10 contract of
+# GenomicLocationGlobal.get_windows): start = position - l, stop = position + r with l = r - 1 = flank, or l = w // 2 and l + r = w for window_size = w.
+# The computation graph is abstract: the observation point is the node that is constructed (Interval / StrandedInterval over chromosome, start, stop[, strand]).
+from pyvc.core import SRec, Opaque, Unsupported      # noqa: E402
+
+
+def _GLS():
+    from bionumpy.genomic_data.genomic_intervals import GenomicLocationStreamed
+    return GenomicLocationStreamed
+
+
+def _NodeExpr(base, op=None, k=None):
+    """position node +/- integer: recorded (a record, so that the engine routes `node - k` to the contract's handler)"""
+    return SRec(None, base=base, op=op, k=k)
+
+
+def _mk_streamed_windows(kind, stranded):
+    def setup(ctx):
+        from bionumpy.computation_graph import ComputationNode
+        from bionumpy.genomic_data.genomic_intervals import GenomicIntervalsStreamed
+        st = St()
+        st.par = z3.Int(kind)
+        st.pos, st.chrom, st.strand = _NodeExpr("position"), Opaque("chromosome node"), Opaque("strand node")
+        st.selfv = SRec(_GLS(), _genome_context=Opaque("genome context"))
+        st.node = None
+        ctx.ip.class_models[(_GLS(), "position")] = lambda ip, obj: st.pos
+        ctx.ip.class_models[(_GLS(), "chromosome")] = lambda ip, obj: st.chrom
+        ctx.ip.class_models[(_GLS(), "strand")] = lambda ip, obj: st.strand
+        ctx.ip.class_models[(_GLS(), "is_stranded")] = lambda ip, obj: _Const(stranded)
+        ctx.ip.class_models[("binop", "Sub")] = lambda ip, a, b, lineno: _NodeExpr(a, "-", b)
+        ctx.ip.class_models[("binop", "Add")] = lambda ip, a, b, lineno: _NodeExpr(a, "+", b)
+
+        def node(ip, args, kwargs, lineno):
+            st.node = list(args)
+            return Opaque("interval node")
+        ctx.ip.class_models[ComputationNode] = node
+
+        class _Clipped:
+            def getattr(self_, ip, name, lineno):
+                if name == "clip":
+                    return _Const(Opaque("clipped streamed intervals"))
+                raise Unsupported(name)
+
+        def streamed(ip, args, kwargs, lineno):
+            st.streamed_args, st.streamed_kwargs = list(args), dict(kwargs)
+            return _Clipped()
+        ctx.ip.class_models[GenomicIntervalsStreamed] = streamed
+        st.args = []
+        st.kwargs = {kind: st.par}
+        return st
+
+    def ens(ctx, st, ret):
+        from bionumpy.datatypes import Interval, StrandedInterval
+        nd = st.node
+        ok = nd is not None and len(nd) == 2 and isinstance(nd[1], list) and len(nd[1]) == (4 if stranded else 3)
+        out = [("an.interval.node.is.built.over (chromosome, start, stop%s)" % (", strand" if stranded else ""), ok and nd[0] is (StrandedInterval if stranded else Interval) and nd[1][0] is st.chrom
+                and (not stranded or nd[1][3] is st.strand))]
+        if not ok:
+            return out
+        s, e = nd[1][1], nd[1][2]
+        shaped = isinstance(s, SRec) and isinstance(e, SRec) and s.has("op") and e.has("op") and s.get("base") is st.pos and e.get("base") is st.pos and s.get("op") == "-" and e.get("op") == "+"
+        out.append(("start.is.position.minus.l, stop.is.position.plus.r", shaped))
+        if not shaped:
+            return out
+        if kind == "flank":
+            out += [("l.is.the.flank", I(s.get("k")) == st.par), ("r.is.the.flank.plus.one", I(e.get("k")) == st.par + 1)]
+        else:
+            q, r = M._divmod_noassert(st.par, 2)
+            out += [("l.is.half.the.window.size", I(s.get("k")) == q), ("the.window.is.exactly.window_size.wide", I(s.get("k")) + I(e.get("k")) == st.par)]
+        out.append(("strandedness.passed.on", st.streamed_kwargs.get("is_stranded") is stranded))
+        return out
+
+    return Contract("C11.GenomicLocationStreamed.get_windows[%s,%s]" % (kind, "stranded" if stranded else "unstranded"), target=lambda: _GLS().get_windows, setup=setup,
+                    requires=lambda ctx, st: [st.par >= 0], ensures=ens,
+                    canaries=[("right flank one too large for even sizes", "r_flank = window_size // 2 + window_size % 2", "r_flank = window_size // 2 + 1")] if kind == "window_size" else
+                             [("symmetric flanks", "r_flank = flank + 1", "r_flank = flank")])
+
+
+class _Const:
+    def __init__(self, v):
+        self.v = v
+
+    def sym_call(self, ip, args, kwargs, lineno):
+        return self.v
+
+
+CONTRACTS += [_mk_streamed_windows("window_size", False), _mk_streamed_windows("flank", False), _mk_streamed_windows("window_size", True)]
